@@ -141,17 +141,19 @@ class Generator:
                 out.append(t)
         return out
 
-    def oos_refarg(self, pt):
-        """a pooled reference that is NOT in scope of pt (deliberately)"""
-        cands = [r for r, t in self.m.ref_toks.items() if t not in pt.m.scope]
+    def oos_refarg(self, pt, kinds=("int",)):
+        """a pooled reference that is NOT in scope of pt (deliberately); of a kind that keeps the
+        surrounding expression well typed, so that the scope error is the only error"""
+        T = self.m.model.toks
+        cands = [r for r, t in self.m.ref_toks.items() if t not in pt.m.scope and T[t].kind in kinds]
         if not cands:
             return None
         self.m.note("oos_ref_generated")
         return {"r": self.rng.choice(cands)}
 
-    def maybe_oos(self, pt):
+    def maybe_oos(self, pt, kinds=("int",)):
         if self.rng.random() < self.p.get("p_oos", 0.0):
-            return self.oos_refarg(pt)
+            return self.oos_refarg(pt, kinds)
         return None
 
     def total_order(self, pt, extra=0):
@@ -218,7 +220,7 @@ class Generator:
             return None
         oos = self.maybe_oos(pt) if pt is not None else None
         if kind == "ref":
-            a = oos or ra(rng.choice(anyc))
+            a = (self.maybe_oos(pt, ("int", "str")) if pt is not None else None) or ra(rng.choice(anyc))
             return a and {"e": "ref", "a": a}
         if not ints:
             return None
@@ -528,7 +530,7 @@ class Generator:
                 return None
         cols = []
         for t in toks:
-            a = self.maybe_oos(pt) or self.refarg(pt, t, allow_str=True)
+            a = self.maybe_oos(pt, ("int", "str")) or self.refarg(pt, t, allow_str=True)
             if a is None:
                 return None
             cols.append(a)
